@@ -190,7 +190,8 @@ struct ValueModel {
         if (s.chance(1, 2)) { static const std::vector<double> cp = {0.3, -0.6, 0.0, 0.55, -0.25, 0.8, -0.9}; bump = 1.5 + 0.5 * s.pick(4); for (auto &c : centre) c = s.of(cp); sharp = 10.0 * (1 + s.pick(6)); } }
     double operator()(const double *x, int dims, int k, int salt) const {
         double a = phase + 0.37 * salt + 0.9 * k, r2 = 0, b2 = 0;
-        for (int j = 0; j < dims; j++) { double t = x[j] / (1.0 + 0.1 * std::fabs(x[j])); a += w[j] * t; r2 += t * t; b2 += (t - centre[j]) * (t - centre[j]); }
+        // outputs k >= 1 weight the directions differently and move the local feature (outputs must disagree on where to refine; k = 0 is unchanged)
+        for (int j = 0; j < dims; j++) { double t = x[j] / (1.0 + 0.1 * std::fabs(x[j])); double c = (k % 2) ? -centre[j] : centre[j]; a += w[(j + k) % 4] * (1.0 + 0.75 * ((j + k) % 3 == 0 ? k : 0)) * t; r2 += t * t; b2 += (t - c) * (t - c); }
         return (1.0 + k) + 0.75 * std::sin(a) + 0.25 * std::cos(q * r2 / (1.0 + 0.2 * r2) + salt) + (bump != 0.0 ? bump * std::exp(-sharp * b2) : 0.0);
     }
     std::string text() const { std::ostringstream o; o << "vm w=" << w[0] << "," << w[1] << "," << w[2] << "," << w[3] << " ph=" << phase << " q=" << q;
